@@ -557,4 +557,246 @@ theorem denOr_sound (names : List Nat) (tris : List Tri) (outer : List (List Val
       · simp [Sem.toRes, toValue_true, boolField, orRes, or3]
 end
 
+mutual
+/-- on error-free trees the order-aware reference result is the order-free Kleene value -/
+theorem den_errorFree (ρ : Nat → Tri) (t : TTree) (h : t.errorFree = true) : t.den ρ = .ok (t.kleene ρ) := by
+  cases t with
+  | const ty t => rfl
+  | var ty n => rfl
+  | fail ty tag => simp [TTree.errorFree] at h
+  | and ty args => simp only [TTree.errorFree] at h; simpa [TTree.den, TTree.kleene] using denAnd_errorFree ρ args h 0
+  | or ty args => simp only [TTree.errorFree] at h; simpa [TTree.den, TTree.kleene] using denOr_errorFree ρ args h 0
+  | not ty a => simp only [TTree.errorFree] at h; simp [TTree.den, TTree.kleene, den_errorFree ρ a h]
+  | isNull ty a => simp only [TTree.errorFree] at h; simp [TTree.den, TTree.kleene, den_errorFree ρ a h]
+  | isNotNull ty a => simp only [TTree.errorFree] at h; simp [TTree.den, TTree.kleene, den_errorFree ρ a h]
+theorem denAnd_errorFree (ρ : Nat → Tri) (args : List TTree) (h : TTree.errorFreeList args = true) :
+    ∀ i, TTree.denAnd ρ i args = .ok (TTree.kleeneAnd ρ args) := by
+  cases args with
+  | nil => intro i; rfl
+  | cons a rest =>
+    intro i
+    simp only [TTree.errorFreeList, Bool.and_eq_true] at h
+    simp only [TTree.denAnd, TTree.kleeneAnd, den_errorFree ρ a h.1, denAnd_errorFree ρ rest h.2 (i + 1)]
+    rcases a.kleene ρ with _ | _ | _ <;> simp [and3_false_left]
+theorem denOr_errorFree (ρ : Nat → Tri) (args : List TTree) (h : TTree.errorFreeList args = true) :
+    ∀ i, TTree.denOr ρ i args = .ok (TTree.kleeneOr ρ args) := by
+  cases args with
+  | nil => intro i; rfl
+  | cons a rest =>
+    intro i
+    simp only [TTree.errorFreeList, Bool.and_eq_true] at h
+    simp only [TTree.denOr, TTree.kleeneOr, den_errorFree ρ a h.1, denOr_errorFree ρ rest h.2 (i + 1)]
+    rcases a.kleene ρ with _ | _ | _ <;> simp [or3_true_left]
+end
+
+/-- **Boolean trees follow Kleene logic**, any depth, any arity: AND / OR / NOT / IS [NOT] NULL over constants and
+    columns, built as `physical.Expression` with sound static types, materialized and evaluated on a record. -/
+theorem tree_kleene (names : List Nat) (tris : List Tri) (outer : List (List Value)) (souter : List (List Nat))
+    (hlen : names.length = tris.length) (t : TTree) (hef : t.errorFree = true)
+    (hb : t.bound names = true) (hok : t.ok (envOf names tris) = true) :
+    eval (tris.map Tri.toValue :: outer) (materialize (names :: souter) t.toP) =
+      .val (t.kleene (envOf names tris)).toValue := by
+  rw [(den_sound names tris outer souter hlen t hb hok).1, den_errorFree _ t hef]
+  rfl
+
+/-! ## WHERE keeps exactly the rows whose predicate is TRUE -/
+
+/-- the rows Filter must keep: predicate evaluates to the Boolean TRUE; watermarks pass -/
+def keepMsg (pred : Expr) (outer : List (List Value)) : Msg → Bool
+  | .wm _ => true
+  | .data r => isTrueRes (eval (r.vals :: outer) pred)
+
+theorem filterRun_val (pred : Expr) (outer : List (List Value)) (r : Rec) (rest : List Msg) (v : Value)
+    (h : eval (r.vals :: outer) pred = .val v) :
+    filterRun pred outer (.data r :: rest) =
+      if isTrueRes (.val v) then (.data r :: (filterRun pred outer rest).1, (filterRun pred outer rest).2)
+      else filterRun pred outer rest := by
+  simp only [filterRun, h]
+  cases v with
+  | bool b => cases b <;> simp [isTrueRes]
+  | _ => simp [isTrueRes]
+
+/-- **filter_spec.** When no predicate evaluation fails, the output is exactly the input with the records whose
+    predicate is not TRUE removed: order, retraction flags, event times and watermarks untouched. -/
+theorem filter_spec (pred : Expr) (outer : List (List Value)) (msgs : List Msg)
+    (hne : ∀ r, Msg.data r ∈ msgs → ∃ v, eval (r.vals :: outer) pred = .val v) :
+    filterRun pred outer msgs = (msgs.filter (keepMsg pred outer), .ok) := by
+  induction msgs with
+  | nil => rfl
+  | cons m rest ih =>
+    have ih' := ih (fun r hr => hne r (List.mem_cons_of_mem _ hr))
+    cases m with
+    | wm t => simp [filterRun, ih', List.filter_cons, keepMsg]
+    | data r =>
+      obtain ⟨v, hv⟩ := hne r (by simp)
+      rw [filterRun_val pred outer r rest v hv, ih']
+      simp only [List.filter, keepMsg, hv]
+      cases isTrueRes (.val v) <;> simp
+
+/-- the first evaluation error that is reached ends the run: what was produced before it is the filtered prefix -/
+theorem filter_error (pred : Expr) (outer : List (List Value)) (pre : List Msg) (r : Rec) (post : List Msg) (e : Err)
+    (hne : ∀ r, Msg.data r ∈ pre → ∃ v, eval (r.vals :: outer) pred = .val v)
+    (he : eval (r.vals :: outer) pred = .err e) :
+    filterRun pred outer (pre ++ .data r :: post) = (pre.filter (keepMsg pred outer), .err e) := by
+  induction pre with
+  | nil => simp [filterRun, he]
+  | cons m rest ih =>
+    have ih' := ih (fun r hr => hne r (List.mem_cons_of_mem _ hr))
+    cases m with
+    | wm t => simp [filterRun, ih', List.filter_cons, keepMsg]
+    | data q =>
+      obtain ⟨v, hv⟩ := hne q (by simp)
+      rw [List.cons_append, filterRun_val pred outer q _ v hv, ih']
+      simp only [List.filter, keepMsg, hv]
+      cases isTrueRes (.val v) <;> simp
+
+/-- the records of the output are the records of the input whose predicate is TRUE; the watermarks are all there -/
+theorem filter_recs_wms (pred : Expr) (outer : List (List Value)) (msgs : List Msg)
+    (hne : ∀ r, Msg.data r ∈ msgs → ∃ v, eval (r.vals :: outer) pred = .val v) :
+    recs (filterRun pred outer msgs).1 = (recs msgs).filter (fun r => isTrueRes (eval (r.vals :: outer) pred)) ∧
+    wms (filterRun pred outer msgs).1 = wms msgs := by
+  rw [filter_spec pred outer msgs hne]
+  clear hne
+  induction msgs with
+  | nil => exact ⟨rfl, rfl⟩
+  | cons m rest ih =>
+    cases m with
+    | wm t => simp [List.filter, keepMsg, recs, wms, ih.1, ih.2]
+    | data r =>
+      simp only [List.filter, keepMsg, recs, wms]
+      cases isTrueRes (eval (r.vals :: outer) pred) <;> simp [recs, wms, ih.1, ih.2]
+
+theorem triOf_toValue (t : Tri) : triOf t.toValue = t := by
+  rcases t with _ | _ | _ <;> rfl
+
+/-- **WHERE with a boolean predicate tree**: over records of truth values, with sound static types, the Filter
+    node keeps exactly the records on which the predicate's Kleene value is TRUE (NULL and FALSE rows are dropped). -/
+theorem filter_kleene (names : List Nat) (souter : List (List Nat)) (outer : List (List Value)) (t : TTree)
+    (hef : t.errorFree = true) (hb : t.bound names = true) (msgs : List Msg)
+    (hrows : ∀ r, Msg.data r ∈ msgs → ∃ tris : List Tri, r.vals = tris.map Tri.toValue ∧
+      names.length = tris.length ∧ t.ok (envOf names tris) = true) :
+    filterRun (materialize (names :: souter) t.toP) outer msgs =
+      (msgs.filter (fun m => match m with
+        | .wm _ => true
+        | .data r => t.kleene (envOf names (r.vals.map triOf)) == some true), .ok) := by
+  have hev : ∀ r, Msg.data r ∈ msgs → eval (r.vals :: outer) (materialize (names :: souter) t.toP) =
+      .val (t.kleene (envOf names (r.vals.map triOf))).toValue := by
+    intro r hr
+    obtain ⟨tris, hv, hlen, hok⟩ := hrows r hr
+    have : r.vals.map triOf = tris := by
+      rw [hv, List.map_map]
+      have : (triOf ∘ Tri.toValue) = id := funext triOf_toValue
+      simp [this]
+    rw [this, hv]
+    exact tree_kleene names tris outer souter hlen t hef hb hok
+  rw [filter_spec _ outer msgs (fun r hr => ⟨_, hev r hr⟩)]
+  congr 1
+  apply List.filter_congr
+  intro m hm
+  cases m with
+  | wm w => rfl
+  | data r =>
+    simp only [keepMsg, hev r hm]
+    rcases t.kleene (envOf names (r.vals.map triOf)) with _ | _ | _ <;> rfl
+
+/-! ## The property, full strength -/
+
+/-- **C11**, as stated: (1) AND / OR are the Kleene folds for every operand list; (2) NOT's table; (3) every
+    descriptor that `functions.go` marks `Strict` — and that is all of them except the NULL handlers, the six
+    comparisons included — returns NULL whenever a (well-typed) argument is NULL; (4) IS [NOT] NULL return a Boolean;
+    (5) boolean expression trees of any depth evaluate to their Kleene value; (6) Filter keeps exactly the rows whose
+    predicate is TRUE. -/
+def Statement : Prop :=
+  (∀ (env : List (List Value)) (ts : List Tri),
+      eval env (.and (ts.map fun t => .const t.toValue)) = .val (kAnd ts).toValue ∧
+      eval env (.or (ts.map fun t => .const t.toValue)) = .val (kOr ts).toValue) ∧
+  (∀ (env : List (List Value)) (schema : List (List Nat)) (ty aty : Ty), nullIs aty = true → ∀ t : Tri,
+      eval env (materialize schema (.call ty (tableDesc nmNot 0 fnNot) [.const aty t.toValue])) = .val (not3 t).toValue) ∧
+  (∀ (env : List (List Value)) (schema : List (List Nat)) (ty : Ty) (name : List Nat) (idx : Nat)
+      (body : List Value → Res), strictOf name idx = some true →
+      ∀ (args : List PExpr) (vs : List Value),
+        evalList env (materializeList schema args) = vs.map Res.val →
+        (∀ (i : Nat) (a : PExpr) (v : Value), args[i]? = some a → vs[i]? = some v → conforms a.ty v = true) →
+        ∀ i : Nat, vs[i]? = some .null →
+          eval env (materialize schema (.call ty (tableDesc name idx body) args)) = .val .null) ∧
+  (∀ e ∈ Octo.Gen.Strict.table, e.strict = true ∨
+      e.name = nmIsNull ∨ e.name = nmIsNotNull ∨ e.name = nmString ∨ e.name = nmPanic) ∧
+  (strictOf nmLt 0 = some true ∧ strictOf nmLe 0 = some true ∧ strictOf nmEq 0 = some true ∧
+      strictOf nmNe 0 = some true ∧ strictOf nmGe 0 = some true ∧ strictOf nmGt 0 = some true) ∧
+  (∀ (env : List (List Value)) (schema : List (List Nat)) (ty : Ty) (a : PExpr) (v : Value),
+      eval env (materialize schema a) = .val v →
+      eval env (materialize schema (.call ty (tableDesc nmIsNull 0 fnIsNull) [a])) = .val (.bool (isNull v)) ∧
+      eval env (materialize schema (.call ty (tableDesc nmIsNotNull 0 fnIsNotNull) [a])) = .val (.bool (!isNull v))) ∧
+  (∀ (names : List Nat) (tris : List Tri) (outer : List (List Value)) (souter : List (List Nat)),
+      names.length = tris.length → ∀ t : TTree, t.errorFree = true → t.bound names = true →
+      t.ok (envOf names tris) = true →
+      eval (tris.map Tri.toValue :: outer) (materialize (names :: souter) t.toP) =
+        .val (t.kleene (envOf names tris)).toValue) ∧
+  (∀ (pred : Expr) (outer : List (List Value)) (msgs : List Msg),
+      (∀ r, Msg.data r ∈ msgs → ∃ v, eval (r.vals :: outer) pred = .val v) →
+      filterRun pred outer msgs = (msgs.filter (keepMsg pred outer), .ok))
+
+/-- **C11, full strength, on the current tree.** -/
+theorem C11_full : Statement :=
+  ⟨fun env ts => ⟨and_kleene env ts, or_kleene env ts⟩,
+   fun env schema ty aty h t => not_table env schema ty aty h t,
+   fun env schema ty name idx body hs args vs hv hc i hn =>
+     table_strict_null env schema ty name idx body hs args vs hv hc i hn,
+   table_strict_except_null_handlers,
+   comparisons_strict,
+   fun env schema ty a v hv => is_null_never_null env schema ty a v hv,
+   fun names tris outer souter hlen t hef hb hok => tree_kleene names tris outer souter hlen t hef hb hok,
+   fun pred outer msgs h => filter_spec pred outer msgs h⟩
+
+/-! ## Non-vacuity -/
+
+def tBN : Ty := .union [.null, .bool]
+
+/-- TRUE AND NULL AND TRUE = NULL;  FALSE OR NULL OR TRUE = TRUE;  NULL AND FALSE = FALSE (evaluated by the model) -/
+example : eval [] (.and [.const (.bool true), .const .null, .const (.bool true)]) = .val .null := by
+  simp [eval, evalAnd, isNull, boolField]
+example : eval [] (.or [.const (.bool false), .const .null, .const (.bool true)]) = .val (.bool true) := by
+  simp [eval, evalOr, boolField]
+example : kAnd [some true, none, some true] = none ∧ kOr [some false, none, some true] = some true ∧
+    kAnd [none, some false] = some false ∧ kOr [none, some false] = none := by decide
+
+/-- an error behind a FALSE is never reached, an error before it is -/
+example : andLoop 0 false [.val (.bool true), .val (.bool false), .err ⟨[], []⟩] = .val (.bool false) := by
+  simp [andLoop, isNull, boolField]
+example : andLoop 0 false [.val .null, .err ⟨[], [1]⟩, .val (.bool false)] = .err ⟨[.andArg 1], [1]⟩ := by
+  simp [andLoop, isNull, Err.wrap]
+
+/-- the hypotheses of `strict_null_welltyped` are met by a call `f(NULL : NULL|Int, 1 : Int)` of a strict `f` -/
+example : nullIs (.union [.null, .int]) = true ∧ conforms (.union [.null, .int]) .null = true ∧
+    conforms .int (.int 1) = true ∧ nullIs .int = false := by decide
+example : eval [] (materialize [] (.call .int ⟨true, fun _ => .val (.int 42)⟩
+    [.const (.union [.null, .int]) .null, .const .int (.int 1)])) = .val .null := by
+  apply strict_null_welltyped [] [] .int _ _ [.null, .int 1] rfl
+  · simp [materializeList, materialize, evalList, eval]
+  · intro i a v ha hv
+    match i with
+    | 0 => simp at ha hv; subst ha hv; decide
+    | 1 => simp at ha hv; subst ha hv; decide
+    | n + 2 => simp at ha
+  · exact (rfl : [Value.null, Value.int 1][0]? = some Value.null)
+
+/-- **why the static types matter** (mirrors the code): the same NULL under a static type that does not admit
+    NULL is *not* checked, the body runs on it, and `not` of NULL comes out TRUE.  `TTree.ok` excludes exactly this;
+    in the engine it can only arise from an unsound output type upstream (C08, e.g. `int('x')` typed Int). -/
+theorem unchecked_null_reaches_body :
+    eval [] (materialize [] (.call .bool (tableDesc nmNot 0 fnNot) [.const .bool .null])) = .val (.bool true) := by
+  simp [materialize, materializeList, eval, evalArgs, nullCheckIndices, nullCheckIdx, PExpr.ty, applyFn,
+    nullCheck, tableDesc, fnNot, boolField, wrapBody]
+
+/-- a non-trivial tree meets the hypotheses of `tree_kleene`: NOT (c0 AND TRUE) over the record (NULL) -/
+def exTree : TTree := .not tBN (.and tBN [.var tBN 0, .const .bool (some true)])
+example : exTree.errorFree = true ∧ exTree.bound [0] = true ∧ exTree.ok (envOf [0] [none]) = true ∧
+    exTree.kleene (envOf [0] [none]) = none ∧ exTree.kleene (envOf [0] [some true]) = some false := by decide
+
+/-- Filter on a three-row stream with a watermark: only the TRUE row and the watermark remain -/
+example : filterRun (.var 0 0) []
+    [.data ⟨[.bool true], false, none⟩, .wm 5, .data ⟨[.null], false, none⟩, .data ⟨[.bool false], true, some 3⟩] =
+    ([.data ⟨[.bool true], false, none⟩, .wm 5], .ok) := by
+  simp [filterRun, eval, lookupVar]
+
 end Octo.C11
